@@ -584,6 +584,25 @@ func forcedSorted(enc *json.Encoder, sc int) int {
 		r.spawn(3, func() { x.member(3, false) })
 		quiesce()
 		r.gate.ReleaseAll()
+	case 6:
+		// a Delete queues for the set mutex (held by a weight update that is stuck in HeaviestElement's notification), then a
+		// weight change of the element that is being deleted queues behind the Delete: it must not touch the removed element
+		x.member(3, true)
+		r.writeVar(x.w[0], 1, 30, false)
+		r.writeVar(x.w[1], 2, 20, false)
+		r.writeVar(x.w[2], 3, 10, false)
+		x.s.HeaviestElement().OnUpdate(func(_, _ int) { r.gate.Wait("hi-cb") })
+		r.gate.Hold("hi-cb")
+		r.note("thread 1 calls weight(3).Set(40) and is held inside HeaviestElement's notification (it holds the set mutex)")
+		r.spawn(1, func() { r.writeVar(x.w[2], 3, 40, false) })
+		quiesce()
+		r.gate.Free("hi-cb")
+		r.note("thread 2 calls SortedSet.Delete(2) and waits for the mutex; thread 3 then calls weight(2).Set(50) and waits behind it")
+		r.spawn(2, func() { x.member(2, false) })
+		quiesce()
+		r.spawn(3, func() { r.writeVar(x.w[1], 2, 50, false) })
+		quiesce()
+		r.gate.ReleaseAll()
 	case 4, 5:
 		// two modifications that both change the LIGHTEST element: the first one (which also changes the heaviest) is held inside
 		// HeaviestElement's notification, the second one (a weight change / a Delete of another element) arrives meanwhile
@@ -946,6 +965,7 @@ func derivedRun(args []string) int {
 		{"sorted-3", func() int { return forcedSorted(enc, 3) }},
 		{"sorted-4", func() int { return forcedSorted(enc, 4) }},
 		{"sorted-5", func() int { return forcedSorted(enc, 5) }},
+		{"sorted-6", func() int { return forcedSorted(enc, 6) }},
 		{"waitgroup-0", func() int { return forcedWaitGroup(enc, 0) }},
 		{"waitgroup-1", func() int { return forcedWaitGroup(enc, 1) }},
 	} {
